@@ -68,7 +68,7 @@ def load_known():
        fixed: property=<id> <commit> <text>   -> suppresses nothing"""
     known = {}
     path = os.path.join(VERIF, "KNOWN_FINDINGS.txt")
-    if not os.path.exists(path):
+    if not os.path.exists(path) or os.environ.get("VERIF_IGNORE_KNOWN") == "1":  # debugging aid only
         return known
     for line in open(path, encoding="utf-8"):
         line = line.strip()
